@@ -403,13 +403,21 @@ impl Check for C02 {
             let total = len + 16;
             let (wfl, rfl, entry) = if rep == 0 {
                 // canonical first repetition: sync whole-buffer, both entry points alternate by parity of len
-                (Flavour::Sync, Flavour::Sync, if len % 2 == 0 { "enum" } else { "expect" })
+                (Flavour::Sync, Flavour::Sync, if len % 2 == 0 && !(len > 0 && len % 256 == 0) { "enum" } else { "expect" })
             } else {
                 (pick_flavour(&mut cf), pick_flavour(&mut cf), if cf.chance(1, 2) { "enum" } else { "expect" })
             };
             let (ws, rs) = if rep == 0 { (Schedule::whole(), Schedule::whole()) } else { (Schedule::random(&mut sr, total, wfl == Flavour::Sync), Schedule::random(&mut sr, total, rfl == Flavour::Sync)) };
+            // every fourth length asks the typed helper for ANOTHER type when the swept message arrives (it must refuse it and
+            // still consume exactly its bytes)
+            let wrong: Vec<Value> = if entry == "expect" && ((len / 2) % 2 == 0 || (len > 0 && len % 256 == 0)) {
+                let other = type_names(exp, dir).iter().find(|n| **n != warden_name(dir)).copied().unwrap_or("");
+                vec![json!([0, other])]
+            } else {
+                vec![]
+            };
             return json!({"kind": "sweep", "label": format!("{}:{}:{}:len={:#x}", exp.name(), dir.name(), warden_name(dir), len),
-                "exp": exp.name(), "dir": dir.name(), "warden": [[0, len]], "frames": frames, "names": names,
+                "exp": exp.name(), "dir": dir.name(), "warden": [[0, len]], "frames": frames, "names": names, "wrong_expect": wrong,
                 "wflavour": wfl.name(), "rflavour": rfl.name(), "rentry": entry, "wsched": sched_json(&ws), "rsched": sched_json(&rs), "encrypted_too": true});
         }
         if i < n_enum && i >= n_enum - COMPRESSED_SWEEP {
